@@ -46,7 +46,7 @@ def nontrivial(feats, out, n):
     if out.status != "ok" or len(out.trace.events) < 7:
         return False
     fs = set(feats)
-    return bool(fs & {"break", "continue", "helper_call", "list_index", "list_index_neg", "list_comp"}) or ("main_loop" in fs and n >= 2)
+    return bool(fs & {"break", "continue", "helper_call", "list_index", "list_index_neg", "list_comp", "list_mutation"}) or ("main_loop" in fs and n >= 2)
 
 
 def evaluate_case(case):
